@@ -1,5 +1,113 @@
 import Rivaas.Proto
-/- Driver for C12 (stub: not built yet) -/
-def main : IO UInt32 := do
-  IO.eprintln "driver for C12 is not built yet"
-  return 2
+import Rivaas.Spec.Phases
+/-
+Driver for C12. Case lines:
+
+  <id> P <nActors> { Q <target> <valInt> | F | W | R <r> <routeKind> | H <r> | N <r> | U <r> }*
+         <nSched> <actor>*  <nIds> <id>*
+    => <nEv> { <vis> <out> }*  <nFinal> <vis>*  <nProbes> { {0|1 <id>} {0|1 <id>} }*
+
+  vis: N E FF WD WR WC FD SF B D        out: - | M a|r|n | H {0 | 1 <id>} | U o|f|n | X
+  (routeKind — direct / group / mount / version — is not a model input: all four go through the same checks)
+-/
+namespace Rivaas.DriverC12
+open Rivaas Rivaas.Proto Rivaas.Phases
+
+def pKind : P Kind := do
+  let k ← tok
+  if k == "Q" then (do let t ← nat; let v ← bool; pure (Kind.request t v))
+  else if k == "F" then pure Kind.freeze
+  else if k == "W" then pure Kind.warmup
+  else if k == "R" then (do let r ← nat; let _ ← nat; pure (Kind.register r))
+  else if k == "H" then Kind.whereInt <$> nat
+  else if k == "N" then Kind.setName <$> nat
+  else if k == "U" then Kind.urlFor <$> nat
+  else failure
+
+def pVis : P Vis := do
+  let k ← tok
+  match k with
+  | "N" => pure .notStarted | "E" => pure .serveEntry | "FF" => pure .freezeFlags
+  | "WD" => pure .warmupDrained | "WR" => pure .warmupRegistered | "WC" => pure .warmupCompiled
+  | "FD" => pure .freezeDone | "SF" => pure .serveFrozen | "B" => pure .blocked | "D" => pure .done
+  | _ => failure
+
+def pOut : P Out := do
+  let k ← tok
+  if k == "-" then pure .none
+  else if k == "X" then pure .crash
+  else if k == "M" then do
+    let r ← tok
+    if r == "a" then pure (.mut .accepted) else if r == "r" then pure (.mut .rejected)
+    else if r == "n" then pure (.mut .na) else failure
+  else if k == "H" then Out.hit <$> opt nat
+  else if k == "U" then do
+    let r ← tok
+    if r == "o" then pure (.url .ok) else if r == "f" then pure (.url .notFrozen)
+    else if r == "n" then pure (.url .notFound) else failure
+  else failure
+
+def pInput : P (List Kind × List Nat × List Nat) := do
+  lit "P"
+  let ks ← list pKind
+  let sched ← list nat
+  let ids ← list nat
+  pure (ks, sched, ids)
+
+structure Obs where
+  evs : List (Vis × Out)
+  final : List Vis
+  probes : List (Option Nat × Option Nat)
+  deriving DecidableEq
+
+def pObs : P Obs := do
+  let evs ← list (do let v ← pVis; let o ← pOut; pure (v, o))
+  let fin ← list pVis
+  let pr ← list (do let a ← opt nat; let b ← opt nat; pure (a, b))
+  pure { evs := evs, final := fin, probes := pr }
+
+def encVis : Vis → String
+  | .notStarted => "N" | .serveEntry => "E" | .freezeFlags => "FF" | .warmupDrained => "WD"
+  | .warmupRegistered => "WR" | .warmupCompiled => "WC" | .freezeDone => "FD" | .serveFrozen => "SF"
+  | .blocked => "B" | .done => "D"
+
+def encOptNat : Option Nat → String
+  | none => "0"
+  | some n => s!"1 {n}"
+
+def encOut : Out → String
+  | .none => "-"
+  | .crash => "X"
+  | .mut .accepted => "M a" | .mut .rejected => "M r" | .mut .na => "M n"
+  | .hit h => "H " ++ encOptNat h
+  | .url .ok => "U o" | .url .notFrozen => "U f" | .url .notFound => "U n"
+
+def encObs (o : Obs) : String :=
+  s!"{o.evs.length}" ++ String.join (o.evs.map fun (v, out) => " " ++ encVis v ++ " " ++ encOut out) ++
+  s!" {o.final.length}" ++ String.join (o.final.map fun v => " " ++ encVis v) ++
+  s!" {o.probes.length}" ++ String.join (o.probes.map fun (a, b) => " " ++ encOptNat a ++ " " ++ encOptNat b)
+
+/-- the model's observation of a case -/
+def modelObs (kinds : List Kind) (sched ids : List Nat) : Obs :=
+  let (s, evs) := run kinds sched
+  { evs := evs.map fun e => (e.vis, e.out),
+    final := s.status.map (vis s),
+    probes := probes s.core ids }
+
+def step (line : String) : String :=
+  match splitCase line with
+  | none => "? bad-line"
+  | some (id, inp, obs) =>
+    match runP pInput inp, runP pObs obs with
+    | some (kinds, sched, ids), some o =>
+      let m := modelObs kinds sched ids
+      let mi := o == m
+      let trace : List Ev :=
+        (sched.zip o.evs).map fun (i, (v, out)) => { actor := i, vis := v, out := out }
+      let sOK := o.evs.length == sched.length && Spec.specOK kinds ids trace o.final o.probes
+      verdict id mi sOK "-" (encObs m)
+    | _, _ => s!"{id} bad-case"
+
+end Rivaas.DriverC12
+
+def main : IO UInt32 := Rivaas.Proto.driverMain Rivaas.DriverC12.step
